@@ -1018,6 +1018,9 @@ def do_raw_call(recv, call, k, enc, farg):
             return recv.encode(indent_level=k, formatter=farg) if enc == "D" else recv.encode(enc, k, farg)
         if call == "ec":
             return recv.encode_contents(k, formatter=farg) if enc == "D" else recv.encode_contents(k, enc, farg)
+        if call in ("rc1", "rc0"):       # deprecated BS3 spelling; always the default formatter
+            return recv.renderContents(prettyPrint=(call == "rc1"), indentLevel=k) if enc == "D" else \
+                recv.renderContents(enc, call == "rc1", k)
     raise KeyError(call)
 
 
@@ -1056,6 +1059,8 @@ def raw_section(ctx, soup, recipe, stream, r, spec, farg, fmt, unit, grecvs, idm
         kinds = [("p", 0, "D"), ("p", 0, r.choice(encs[1:3])), ("d", None, "D"), ("d", r.choice([0, 1, 2, True, False]), r.choice(encs)),
                  ("c", r.choice([None, 0, 1]), r.choice(["D"] + encs)), ("e", r.choice([None, 0, 1]), r.choice(["D"] + encs[1:3])),
                  ("ec", r.choice([None, 0, 2]), r.choice(["D"] + encs[1:3])), ("d", r.choice([None, 0]), None)]
+        if spec == ["name", "minimal"]:
+            kinds.append((r.choice(["rc1", "rc0"]), r.choice([0, 1, 2]), r.choice(["D"] + encs[1:3])))
         plain_by = {}
         for call, k, en in kinds:
             try:
@@ -1077,7 +1082,9 @@ def raw_section(ctx, soup, recipe, stream, r, spec, farg, fmt, unit, grecvs, idm
             ctx.count("raw:recv:" + ("xml-soup" if is_soup and recv.is_xml else "soup" if is_soup else
                                      "void" if (not recv.contents and recv.can_be_empty_element is True) else "tag"))
             # ---------------- direct oracle ----------------
-            co = call in ("c", "ec")
+            co = call in ("c", "ec", "rc1", "rc0")
+            if call == "rc0":
+                lk = None
             decl = prop_xml_decl(eff_enc) if (is_soup and recv.is_xml) else ""
             case = {"recipe": recipe, "receiver": path_of(recv, soup), "formatter": spec, "rawcall": [call, str(k) if isinstance(k, bool) else k, en]}
             pc = pieces(eff_enc)
@@ -1352,6 +1359,15 @@ def run(ctx: Ctx):
             small_real.append("1" if t._should_pretty_print() else "0")
             small_case.append({"op": "spp", "pwt": None if pwt is None else sorted(pwt), "name": nm})
             ctx.case(("P", st, nm))
+    for lvl in (None, 0, 1, -1):
+        for pwt in (None, {"pre"}):
+            for nm in ("pre", "x"):
+                t = Tag(name=nm, preserve_whitespace_tags=pwt)
+                st = "N" if pwt is None else "/".join(tok(n) for n in sorted(pwt))
+                small_lines.append(f"c14 sppat {lvl_tok(lvl)} {st} {tok(nm)}")
+                small_real.append("1" if t._should_pretty_print(lvl) else "0")
+                small_case.append({"op": "sppat", "level": lvl, "pwt": None if pwt is None else sorted(pwt), "name": nm})
+                ctx.case(("PA", lvl, st, nm))
     rep = drv.ask(small_lines)
     for l, a, b, c in zip(small_lines, small_real, rep, small_case):
         if c["op"] == "indent":
